@@ -55,6 +55,15 @@ POOL_TEXTS = [
     '/* unterminated comment\nvar a;',                              # invalid
     '',
     'l: do { x = y\n/re/.exec(z) } while (0)\n"use strict"\n',
+    # the same reserved words as property names (after `.`) and as keywords, in both orders across parses
+    'o.class = 1; r = a.default; x = o.return\n/b/g',
+    'switch (a) { default: b }\nfunction f() { return 1 }',
+    'class = 2;',                                                   # invalid
+    '/re/.test(a) ? b : c',                                         # starts with a regex, ends without `;`
+    'f(a))',                                                        # invalid: mismatched parenthesis
+    'var re = /abc',                                                # invalid: regex syntax error (lexer left in regex state)
+    'var let = 1, static = 2; yield = let;',
+    'x = 1 // trailing comment',
 ]
 
 
@@ -125,6 +134,25 @@ if job['mode'] == 'each-fresh':
         running.append((i, pid, r))
     while running:
         reap()
+elif job['mode'] == 'cold-threads':
+    # the very FIRST parses of this process run concurrently: 8 threads released together by a barrier
+    import threading
+    sys.setswitchinterval(job['interval'])
+    items = job['items']
+    out = [None] * len(items)
+    nthreads = 8
+    barrier = threading.Barrier(nthreads)
+
+    def work(k):
+        barrier.wait()
+        for i in range(k, len(items), nthreads):
+            text, wc = items[i]
+            out[i] = C15.result_of(text, bool(wc))
+    ts = [threading.Thread(target=work, args=(k,)) for k in range(nthreads)]
+    for t in ts:
+        t.start()
+    for t in ts:
+        t.join()
 else:
     # one history, sequentially, in this fresh process
     for text, wc in job['items']:
@@ -132,13 +160,16 @@ else:
 sys.stdout.write(json.dumps(out))
 '''
 
+COLD_TEXTS = ['x = (((((((a)))))));', 'switch (a) { case 1: b; default: c; case 2: d }', 'function () {}', 'y = ((b)) + (((c)));',
+              'o = {get a() { return ((1)); }, set b(v) {}}; for (var i = 0 in o) ;', 'a = [1,,2,,,]; (((f)))((g));']
 
-def in_fresh_process(items, mode):
+
+def in_fresh_process(items, mode, interval=None):
     """mode 'each-fresh': every item in its own (forked) fresh process; 'history': the items one after the other in one"""
     here = os.path.dirname(os.path.dirname(os.path.abspath(__file__)))
     scratch = boot.boot()
     p = subprocess.run([sys.executable if sys.executable else '/venv/bin/python', '-c', CHILD, here, scratch],
-                       input=json.dumps(dict(mode=mode, items=items)), stdout=subprocess.PIPE, stderr=subprocess.PIPE,
+                       input=json.dumps(dict(mode=mode, items=items, interval=interval)), stdout=subprocess.PIPE, stderr=subprocess.PIPE,
                        universal_newlines=True, timeout=900, env=dict(os.environ, PYTHONHASHSEED='0'))
     if p.returncode != 0:
         import framework
@@ -405,6 +436,24 @@ def run(ctx):
     ctx.obligation('tie:S11 concurrent parses, 16 threads x switch intervals %s (correspondence only: schedules not modelled)' % intervals,
                    True, 'tie', '%d parses in %d rounds' % (n_thr, len(intervals) * rounds))
     ctx.note('thread stage done at %.1fs' % (time.time() - t0))
+    # cold start: processes whose FIRST parses are concurrent (lazily built shared tables are built under contention)
+    cold_items = [[t, wc] for t in COLD_TEXTS for wc in (0, 1)] * 4
+    cold_ref = in_fresh_process(cold_items[:len(COLD_TEXTS) * 2], 'each-fresh') * 4
+    cold_bad = None
+    for rep in range(ctx.n(6, 24)):
+        iv = [1e-6, 1e-4, 1e-5][rep % 3]
+        got = in_fresh_process(cold_items, 'cold-threads', interval=iv)
+        ctx.case(('cold-threads', rep, iv))
+        diff = [i for i in range(len(cold_items)) if got[i] != cold_ref[i]]
+        if diff:
+            cold_bad = dict(kind='cold-threads', interval=iv, text=cold_items[diff[0]][0], with_comments=cold_items[diff[0]][1],
+                            expected=cold_ref[diff[0]], got=got[diff[0]], differing=len(diff))
+            break
+    if cold_bad:
+        ctx.violation('parses that are the first of their process and run concurrently differ from the fresh-process value '
+                      '(switch interval %g, %d differing results)' % (cold_bad['interval'], cold_bad['differing']), cold_bad)
+    ctx.obligation('tie:S11 cold-start concurrent parses (8 threads released together in fresh processes; correspondence only)',
+                   cold_bad is None, 'tie', '' if cold_bad is None else str(cold_bad)[:600])
     after = module_snapshot()
     changed = [a[0] for a, b in zip(before, after) if a != b]
     if changed:
